@@ -426,8 +426,10 @@ def ar_random_script(cap, rng, nops):
                 cnt += 1 + bcnt
         elif c < 0.45:
             lines.append("ar sset %d %d" % (rng.randrange(cap), rng.randrange(1000)))
-        elif c < 0.55:
+        elif c < 0.52:
             lines.append("ar sfill %d" % rng.randrange(1000))
+        elif c < 0.55:
+            lines.append("ar snew %d" % rng.randrange(1, 1000))      # constructed from a filler value
         elif c < 0.6:
             lines.append("ar sclear")
         elif c < 0.93 and cnt < cap:
